@@ -329,10 +329,29 @@ Definition shadowing_copy (decls : list cdecl) (mro : nat -> list nat) (k : nat)
   | None => None
   end.
 
+(** A class that only inherits a property shows the property object of the first class on its resolution order that
+    declares the name - as a whole.  Where that class re-defined the property on a base's property ([@Base.p.setter]) and
+    has no accessor of this kind of its own, the accessor is the one that class inherited: the provider is looked for on
+    *its* resolution order (as for a method a class inherits), not on the longer one of the inheriting class, where an
+    unrelated base may override the accessor further along. *)
+Definition lookup_class (decls : list cdecl) (mro : nat -> list nat) (k : nat) (name : string) (acc : mkind) : nat :=
+  match find (fun q => match nth_error decls q with Some d => declares_name d name | None => false end) (mro k) with
+  | Some q =>
+      match nth_error decls q with
+      | Some d =>
+          if existsb (fun m => String.eqb (md_name m) name && match md_inherit m with Some _ => true | None => false end)
+                     (cd_members d)
+             && negb (existsb (fun m => String.eqb (md_name m) name && acc_matches acc (md_kind m)) (cd_members d))
+          then q else k
+      | None => k
+      end
+  | None => k
+  end.
+
 (** compare the lists a member shows with the declarative effective contracts *)
 Definition check_member_view (decls : list cdecl) (mro : nat -> list nat) (k : nat) (name : string) (acc : mkind)
            (v : fview) : c04_verdict :=
-  match provider decls mro k name acc with
+  match provider decls mro (lookup_class decls mro k name acc) name acc with
   | None => V_ok
   | Some p =>
       let ctor := is_ctor name in
